@@ -480,7 +480,14 @@ func runC13(c *Ctx, r *Report) {
 		if n == 0 {
 			r.Undecided("ExpandMacros: no evaluation of the macro body found")
 		}
-		qa := c.SSAFn(c.Fn("eval", "quoteArgs"))
+		qaObj := c.FnOpt("eval", "quoteArgs")
+		if qaObj == nil { // a method of the State after a refactoring
+			qaObj = c.FnOpt("eval", "State.quoteArgs")
+		}
+		if qaObj == nil {
+			undecidedf("anchor eval.quoteArgs not found")
+		}
+		qa := c.SSAFn(qaObj)
 		callT := c.TypeNamed("ast", "CallExpression")
 		okQ := false
 		eachInstr(qa, func(in ssa.Instruction) {
